@@ -18,7 +18,7 @@ out.append("|---|---|---|---|")
 for d in sorted(glob.glob(os.path.join(V, 'seeded', '*'))):
     m = json.load(open(os.path.join(d, 'meta.json')))
     res = m['checks_run_against_it']['results']
-    rb = ", ".join("%s%s" % (c, "" if v['exit'] == 1 else " (silent)") for c, v in res.items())
+    rb = m.get('display') or ", ".join("%s%s" % (c, "" if v['exit'] == 1 else " (silent)") for c, v in res.items())
     out.append("| %s | %s | %s | %s |" % (os.path.basename(d), (m.get('summary') or '').replace('|', '\\|')[:260], (m.get('needs') or '').replace('|', '\\|')[:260], rb))
 txt = "\n".join(out) + "\n"
 p = os.path.join(V, 'DESIGN.md')
